@@ -70,12 +70,10 @@ def _work(job):
             return out
         tmo = QUICK_TIMEOUT_MS if tier == "quick" else THOROUGH_TIMEOUT_MS
         groups = {}
-        n_unknown = 0
+        from pyvc.par import discharge_all
+        # (after two undecided queries per worker the remaining ones get a short budget)
+        discharge_all(obs, tmo, int(os.environ.get("PYVC_SUBPROCS", "1")))
         for o in obs:
-            # after two undecided queries in one function the remaining ones get a short budget
-            discharge(o, tmo if n_unknown < 2 else min(tmo, 3000), use_cvc5=(n_unknown < 2))
-            if o.result == "unknown":
-                n_unknown += 1
             g = groups.setdefault(o.oid, {"oid": o.oid, "kind": o.kind, "descr": o.descr, "queries": 0, "result": "discharged",
                                           "backends": set(), "time": 0.0, "reason": "", "exact": True, "replay": None,
                                           "lineno": o.lineno})
@@ -287,6 +285,8 @@ def main(argv=None):
             jobs = [j for j in jobs if a.only in j[2]]
         results = []
         if jobs:
+            # cores not needed for function-level parallelism go to obligation-level parallelism inside each function
+            os.environ["PYVC_SUBPROCS"] = str(max(1, min(8, a.jobs // max(1, len(jobs)))))
             ctx = mp.get_context("fork")
             with ctx.Pool(min(a.jobs, len(jobs))) as pool:
                 results = pool.map(_work, jobs, chunksize=1)
